@@ -270,19 +270,61 @@ def run(repo, rep, tier):
     rep.ob("C13.R1", post, "decimal places default: 2 for currency, automatic otherwise", ok, "", key="C13.R1@defaults")
     # dispatch of the renderer per format type
     cf = repo.func("cell.py", "Cell._custom_format")
-    branches = {}
-    for n in ast.walk(cf):
-        if isinstance(n, ast.If) and isinstance(n.test, ast.Compare) and U(n.test.left) == "custom_format.format_type" and isinstance(n.test.ops[0], ast.Eq):
-            ft = U(n.test.comparators[0]).split(".")[-1]
-            ret = next((b for b in n.body if isinstance(b, ast.Return)), None)
-            if ret is not None and isinstance(ret.value, ast.Call):
-                branches[ft] = ret.value
+    # the part of the function that chooses the renderer is summarised with the format object left symbolic, and
+    # evaluated for every built-in format type (an if-chain, a lookup table of renderers, or a mix)
+    import copy as _copy
+    from ..funsum import Asg, Summarizer, _Simp, canon_text, cval, expect, tv3
+    from ..symexec import _strip as _sstrip
+    disp = next((i for i, st in enumerate(cf.body) if isinstance(st, ast.If) and ("custom_uid" in U(st.test) or "format_type" in U(st.test))), None)
+    if disp is None:
+        raise AnalysisError("Cell._custom_format: the statement that dispatches on the format type was not found")
+    fmt_var = "custom_format"
+    dpaths = Summarizer().block_paths(cf.body[disp:], {})
+    FT = {k.split(".")[1]: v for k, v in repo.consts.items() if k.startswith("FormatType.")}
+    tables = {}
+    for n in repo.tree("cell.py").body:
+        if isinstance(n, ast.Assign) and len(n.targets) == 1 and isinstance(n.targets[0], ast.Name) and isinstance(n.value, ast.Dict):
+            ks = [cval(k, {f"FormatType.{a_}": b_ for a_, b_ in FT.items()}) for k in n.value.keys if k is not None]
+            if ks and all(isinstance(k, int) for k in ks) and all(isinstance(v, (ast.Name, ast.Attribute)) for v in n.value.values):
+                tables[n.targets[0].id] = dict(zip(ks, [U(v) for v in n.value.values]))
+
+    class _Lookup(ast.NodeTransformer):
+        def __init__(self, sc):
+            self.sc = sc
+
+        def visit_Subscript(self, node):
+            self.generic_visit(node)
+            if isinstance(node.value, ast.Name) and node.value.id in tables:
+                k = cval(node.slice, self.sc)
+                if k in tables[node.value.id]:
+                    return ast.parse(tables[node.value.id][k], mode="eval").body
+            return node
+
     for ft, (fn, arg0) in RENDERER.items():
-        c = branches.get(ft)
-        ok = c is not None and call_name(c) == fn and U(c.args[0]) == arg0 and U(c.args[1]) == "custom_format"
-        if ft == "PERCENT":
-            ok = ok and any(kw.arg == "percent" and try_const(kw.value) is True for kw in c.keywords)
-        rep.ob("C13.R1", c or cf, f"FormatType.{ft} is rendered by {fn}({arg0}, custom_format)", ok, "" if ok else f"found `{U(c) if c is not None else None}`", key=f"C13.R1@dispatch:{ft}")
+        sc = {f"FormatType.{a_}": b_ for a_, b_ in FT.items()}
+        sc.update(tables)
+        sc[f"{fmt_var}.HasField('custom_uid')"] = False
+        sc[f"{fmt_var}.format_type"] = FT[ft]
+        asg = Asg(sc)
+        hit = []
+        for p_ in dpaths:
+            sel = True
+            for c_, o_ in p_.conds:
+                v_ = tv3(c_, asg)
+                if v_ is None:
+                    raise AnalysisError(f"Cell._custom_format: `{U(c_)[:70]}` is not decided by the format type")
+                if v_ != o_:
+                    sel = False
+                    break
+            if sel:
+                hit.append(p_)
+        got = None
+        if len(hit) == 1 and hit[0].kind == "return":
+            r = _Lookup(sc).visit(_Simp(asg).visit(_copy.deepcopy(_sstrip(hit[0].ret))))
+            got = canon_text(r)
+        want = expect(f"{fn}({arg0}, {fmt_var}" + (", percent=True)" if ft == "PERCENT" else ")"))
+        ok = got == want
+        rep.ob("C13.R1", hit[0].node if hit else cf, f"FormatType.{ft} is rendered by {fn}({arg0}, custom_format)", ok, "" if ok else f"found `{got}`", key=f"C13.R1@dispatch:{ft}")
     s = U(repo.func("cell.py", "Cell.formatted_value"))
     ok = "self._num_format_id is not None" in s and "self._currency_format_id is not None" in s and "return self._custom_format()" in s
     rep.ob("C13.R1", repo.func("cell.py", "Cell.formatted_value"), "number and currency format ids route to _custom_format", ok, "", key="C13.R1@formatted_value")
